@@ -161,7 +161,7 @@ func newDeco(r *mon.Run, inner gostatsd.CachedInstances) *decoCI {
 	return &decoCI{r: r, inner: inner, sink: make(chan gostatsd.Source), info: make(chan gostatsd.InstanceInfo)}
 }
 
-func (d *decoCI) IpSink() chan<- gostatsd.Source            { return d.sink }
+func (d *decoCI) IpSink() chan<- gostatsd.Source           { return d.sink }
 func (d *decoCI) InfoSource() <-chan gostatsd.InstanceInfo { return d.info }
 func (d *decoCI) EstimatedTags() int                       { return d.inner.EstimatedTags() }
 
@@ -673,4 +673,170 @@ func integCase(r *mon.Run, idx int) (abort bool) {
 	}
 	r.Inconclusive("watchdog:" + res.progress)
 	return false
+}
+
+// ---------------------------------------------------------------------------------------------
+// slow provider: a provider call of realistic but long duration (5.5-7 s of real time) for a batch of
+// several sources, under the real cache and the real handler
+
+type slowProvider struct {
+	r       *mon.Run
+	dur     time.Duration
+	honours bool // returns an error as soon as its context ends (and an error after dur otherwise); else sleeps dur and succeeds
+
+	mu    sync.Mutex
+	calls int
+	first []string
+}
+
+func (p *slowProvider) Name() string           { return "slow" }
+func (p *slowProvider) MaxInstancesBatch() int { return 16 }
+func (p *slowProvider) EstimatedTags() int     { return 2 }
+func (p *slowProvider) Instance(ctx context.Context, ips ...gostatsd.Source) (map[gostatsd.Source]*gostatsd.Instance, error) {
+	p.mu.Lock()
+	p.calls++
+	n := p.calls
+	if n == 1 {
+		for _, ip := range ips {
+			p.first = append(p.first, string(ip))
+		}
+	}
+	p.mu.Unlock()
+	if n == 1 {
+		p.r.Event("integrated_slow_provider_calls", 1)
+		if p.honours {
+			select {
+			case <-time.After(p.dur):
+			case <-ctx.Done():
+			}
+			return nil, errors.New("slow provider gave up")
+		}
+		time.Sleep(p.dur) // the latency itself (workload shaping, like an upstream that takes this long)
+	}
+	out := map[gostatsd.Source]*gostatsd.Instance{}
+	for _, ip := range ips {
+		out[ip] = mkInstance(string(ip), n)
+	}
+	return out, nil
+}
+
+func runSlow(r *mon.Run, idx int, honours bool, wd time.Duration) integResult {
+	rng := r.Rand(fmt.Sprintf("slow-%d", idx))
+	dur := 5500*time.Millisecond + time.Duration(rng.Intn(1500))*time.Millisecond
+	nsrc := 4 + rng.Intn(3)
+	res := integResult{rc: replayCase{Mode: "slow", Index: idx, Steps: []string{fmt.Sprintf("provider call takes %v for a batch of up to %d sources; provider honours its context and fails=%v", dur, nsrc, honours)}}}
+	rc := res.rc
+	base, cancel := context.WithCancel(context.Background())
+	ctx := clock.Context(base, clock.NewMock(time.Unix(1700000000, 0)))
+	prov := &slowProvider{r: r, dur: dur, honours: honours}
+	logger := logrus.New()
+	logger.SetOutput(io.Discard)
+	ccp := cloudprovider.NewCachedCloudProvider(logger, rate.NewLimiter(rate.Inf, 1), prov, gostatsd.CacheOptions{
+		CacheRefreshPeriod: time.Hour, CacheTTL: 12 * time.Hour, CacheNegativeTTL: 12 * time.Hour, CacheEvictAfterIdlePeriod: 24 * time.Hour})
+	cp := newCapture(r)
+	ch := statsd.NewCloudHandler(ccp, cp)
+	var wg sync.WaitGroup
+	wg.Add(2)
+	go func() { defer wg.Done(); ccp.Run(ctx) }()
+	go func() { defer wg.Done(); ch.Run(ctx) }()
+	defer func() { cancel(); wg.Wait() }()
+	r.Eval(1)
+
+	g := idgen{prefix: "slow"}
+	var items []*item
+	var keys []string
+	for i := 0; i < nsrc; i++ {
+		src := fmt.Sprintf("10.7.9.%d", i+1)
+		var dps []ref.Datapoint
+		for k := 1 + rng.Intn(3); k > 0; k-- {
+			it, d := g.datapoint(rng, src, 300<<32)
+			items = append(items, it)
+			dps = append(dps, d)
+		}
+		ch.DispatchMetricMap(ctx, gen.MapOf(dps))
+		it, ev := g.event(rng, src, 300<<32)
+		items = append(items, it)
+		ch.DispatchEvent(ctx, ev)
+	}
+	for _, it := range items {
+		keys = append(keys, it.Key)
+	}
+	if !mon.WaitUntil(dur+wd, func() bool { return cp.hasAll(keys) }) {
+		var missing []string
+		for _, k := range keys {
+			if !cp.hasAll([]string{k}) {
+				missing = append(missing, k)
+			}
+		}
+		prov.mu.Lock()
+		first, calls := append([]string(nil), prov.first...), prov.calls
+		prov.mu.Unlock()
+		res.progress = "integrated:parked-after-slow-provider-call"
+		res.detail = fmt.Sprintf("real cache under the real handler: the provider call for %v took %v (honours its context and fails: %v; %d provider calls in all); %v later items %v have still not left the stage", first, dur, honours, calls, wd, missing)
+		return res
+	}
+	time.Sleep(15 * time.Millisecond) // a duplicate gets a moment to show up
+	byKey := map[string][]delivery{}
+	for _, d := range cp.since(0) {
+		byKey[d.Key] = append(byKey[d.Key], d)
+	}
+	prov.mu.Lock()
+	inFirst := map[string]bool{}
+	for _, s := range prov.first {
+		inFirst[s] = true
+	}
+	prov.mu.Unlock()
+	for _, it := range items {
+		ds := byKey[it.Key]
+		if len(ds) != 1 {
+			r.Violation("delivered-twice:"+it.Kind, fmt.Sprintf("slow provider run: %s %s left the stage %d times", it.Kind, it.Key, len(ds)), rc)
+			continue
+		}
+		d := ds[0]
+		// sources of the slow first call get its outcome; a source that came in a later (fast) call is found
+		okTags := false
+		for ver := 1; ver <= 4 && !okTags; ver++ {
+			var inst *gostatsd.Instance
+			if !(honours && inFirst[it.Src]) {
+				inst = mkInstance(it.Src, ver)
+			}
+			w := expected(it, inst)
+			okTags = sameTags(w.tags, d.Tags) && w.source == d.Source
+		}
+		if !okTags {
+			want := "enriched with the instance the lookup returned"
+			if honours && inFirst[it.Src] {
+				want = "unchanged, the lookup failed"
+			}
+			r.Violation("wrong-enrichment:"+it.Kind+":after-slow-provider-call", fmt.Sprintf("slow provider run (%v, fails=%v): %s %s from %q left with tags %q source %q, expected %s", dur, honours, it.Kind, it.Key, it.Src, d.Tags, d.Source, want), rc)
+		}
+	}
+	if ems, ok := emission(ctx, ch, wd); ok {
+		for _, em := range ems {
+			for _, k := range []string{gHostsM, gHostsE, gItemsE} {
+				if em[k] != 0 {
+					r.Violation("gauge-mismatch:"+k, fmt.Sprintf("slow provider run: after every item left the stage %s = %v", k, em[k]), rc)
+				}
+			}
+		}
+	}
+	r.Event("integrated_slow_runs", 1)
+	if len(prov.first) >= 2 {
+		r.Nontrivial(fmt.Sprintf("slow:honours=%v:batch=%d", honours, len(prov.first)))
+	}
+	return res
+}
+
+func slowCase(r *mon.Run, idx int, honours bool) {
+	r.Case("slow provider %d honours=%v", idx, honours)
+	res := runSlow(r, idx, honours, 4*time.Second)
+	if res.progress == "" {
+		return
+	}
+	res2 := runSlow(r, idx, honours, 4*time.Second)
+	if res2.progress == res.progress {
+		r.Violation(res.progress, res2.detail+"\n"+strings.Join(res2.rc.Steps, " ")+"\n(reproduced twice)", res2.rc)
+		return
+	}
+	r.Inconclusive("watchdog:" + res.progress)
 }
